@@ -201,7 +201,7 @@ func (m *UDPMuxDefault) GetConn(ufrag string, addr net.Addr) (net.PacketConn, er
 		muxedConn = m.createMuxedConn(ufrag)
 		go func() {
 			<-muxedConn.CloseChannel()
-			m.RemoveConnByUfrag(ufrag)
+			m.removeClosedConn(ufrag, muxedConn)
 		}()
 
 		if isIPv6 {
@@ -218,6 +218,29 @@ func (m *UDPMuxDefault) GetConn(ufrag string, addr net.Addr) (net.PacketConn, er
 	}
 
 	return newSharedPacketConn(muxedConn, &muxedConn.refs), nil
+}
+
+// removeClosedConn forgets conn once it has been closed. It removes that very connection
+// only: a newer connection registered under the same ufrag, and the connection of the
+// other IP family, are not its business.
+func (m *UDPMuxDefault) removeClosedConn(ufrag string, conn *udpMuxedConn) {
+	m.mu.Lock()
+	if c, ok := m.connsIPv4[ufrag]; ok && c == conn {
+		delete(m.connsIPv4, ufrag)
+	}
+	if c, ok := m.connsIPv6[ufrag]; ok && c == conn {
+		delete(m.connsIPv6, ufrag)
+	}
+	m.mu.Unlock()
+
+	m.addressMapMu.Lock()
+	defer m.addressMapMu.Unlock()
+
+	for _, addr := range conn.getAddresses() {
+		if m.addressMap[addr] == conn {
+			delete(m.addressMap, addr)
+		}
+	}
 }
 
 // RemoveConnByUfrag stops and removes the muxed packet connection.
@@ -626,6 +649,15 @@ func (m *UDPMuxDefault) getConn(ufrag string, isIPv6 bool) (val *udpMuxedConn, o
 		val, ok = m.connsIPv6[ufrag]
 	} else {
 		val, ok = m.connsIPv4[ufrag]
+	}
+
+	// A closed connection stays in the map until its watcher has removed it.
+	if ok {
+		select {
+		case <-val.CloseChannel():
+			return nil, false
+		default:
+		}
 	}
 
 	return
